@@ -93,7 +93,8 @@ func (pool *TransactionsPool) Validate(timestamp int64) {
 	}
 	pool.mutex.Lock()
 	defer pool.mutex.Unlock()
-	transactions := pool.transactions
+	transactions := make([]*ledger.Transaction, len(pool.transactions))
+	copy(transactions, pool.transactions)
 	rand.Seed(timestamp)
 	rand.Shuffle(len(transactions), func(i, j int) {
 		transactions[i], transactions[j] = transactions[j], transactions[i]
